@@ -588,9 +588,30 @@ template <class E, class W, int N> struct inst
     }
     }
   }
+  // fast path without allocations: members through get() as a mask, then ==, !=, both hashes and
+  // is_subset_eq against the same set built with set() (built once per set and kept); true = all agree
+  static bool quick_ok(BF const &real, rset const &want)
+  {
+    u64 got_mask = 0;
+    for (int i = 0; i < N; ++i)
+      if (real.get(en(i)))
+        got_mask |= u64(1) << i;
+    u64 const want_mask = to_mask(want);
+    if (got_mask != want_mask)
+      return false;
+    static std::map<u64, BF> canonical;
+    auto it = canonical.find(want_mask);
+    if (it == canonical.end())
+      it = canonical.emplace(want_mask, canon(want)).first;
+    BF const &c = it->second;
+    return (real == c) && (c == real) && !(real != c) && !(c != real) && h1(real) == h1(c) && h2(real) == h2(c) && sub(real, c) &&
+           sub(c, real);
+  }
   static void verify_assign(int m, char const *which, BF const &real, rset const &want, std::string const &what)
   {
-    rset const got = members(real);
+    if (quick_ok(real, want))
+      return;
+    rset const got = members(real); // slow path: report in detail
     if (got != want)
       vrt::fail(std::string("proxy_assign:") + mode_name(m) + ":" + which,
                 vrt::fmt("%s [%s]: %s is %s, expected %s", what.c_str(), mode_name(m), which, show(got).c_str(), show(want).c_str()));
@@ -721,16 +742,19 @@ template <class E, class W, int N> struct inst
 
   // two different bitfields: a[e] = b[f] in every value category (same and different enumerator,
   // equal and different contents); b must stay as it is
-  static void proxy_xfer_all()
+  static void proxy_xfer_all(unsigned part, unsigned nparts)
   {
     static std::string const name = "proxy_xfer" + tag;
     std::vector<u64> const da = (N <= 9 && vrt::thorough()) ? domain(N, false) : small_family(true);
     std::vector<u64> const db = small_family(N <= 17 || vrt::thorough());
     std::vector<int> const pos = positions();
-    for (u64 A : da)
+    for (std::size_t ia = 0; ia < da.size(); ++ia)
     {
+      if (ia % nparts != part)
+        continue;
       if (vrt::out_of_time())
         return;
+      u64 const A = da[ia];
       rset const sa = to_set(A, N);
       BF const a0 = canon(sa);
       for (u64 B : db)
@@ -866,6 +890,8 @@ template <class E, class W, int N> struct inst
                     for (int k = 0; k < 3; ++k)
                     {
                       if ((k == 1 && !uses1) || (k == 2 && !uses2))
+                        continue;
+                      if (quick_ok(obj[k], want[k]))
                         continue;
                       rset const got = members(obj[k]);
                       if (got != want[k])
@@ -1329,7 +1355,8 @@ void register_inst(std::string const &ename, std::string const &wname, unsigned 
     I::element_all(d);
   });
   vrt::shard("proxy_copy/" + base, [] { I::proxy_copy_all(I::dom()); });
-  vrt::shard("proxy_xfer/" + base, [] { I::proxy_xfer_all(); });
+  for (unsigned p = 0; p < pair_parts; ++p)
+    vrt::shard("proxy_xfer/" + base + "/" + std::to_string(p), [p, pair_parts] { I::proxy_xfer_all(p, pair_parts); });
   vrt::shard("proxy_chain/" + base, [] { I::proxy_chain_all(); });
   for (unsigned p = 0; p < pair_parts; ++p)
     vrt::shard("pair/" + base + "/" + std::to_string(p), [p, pair_parts] { I::pairs(p, pair_parts); });
